@@ -96,6 +96,14 @@ fn float_to_i128(float: f64) -> Option<i128> {
     Some(truncated as i128)
 }
 
+/// `from_str_radix` panics unless the radix is in `2..=36`; report an invalid radix as a run-time error instead.
+fn checked_radix(radix: i32) -> Result<u32> {
+    match u32::try_from(radix) {
+        Ok(radix @ 2..=36) => Ok(radix),
+        _ => bail!("`{radix}` is an invalid radix (valid radices are 2 through 36)"),
+    }
+}
+
 type BuiltInFunctionReturnBundle = (
     Option<Primitive>,
     Option<Box<dyn RuntimeExecutionBridgeNotifier>>,
@@ -635,12 +643,7 @@ impl BuiltInFunction {
                     s
                 };
 
-                if let Ok(num) = i32::from_str_radix(
-                    s,
-                    (*radix)
-                        .try_into()
-                        .with_context(|| format!("`{radix}` is an invalid radix"))?,
-                ) {
+                if let Ok(num) = i32::from_str_radix(s, checked_radix(*radix)?) {
                     Ok((
                         Some(Primitive::Optional(Some(Box::new(Primitive::Int(num))))),
                         None,
@@ -664,12 +667,7 @@ impl BuiltInFunction {
                     s
                 };
 
-                if let Ok(num) = i128::from_str_radix(
-                    s,
-                    (*radix)
-                        .try_into()
-                        .with_context(|| format!("`{radix}` is an invalid radix"))?,
-                ) {
+                if let Ok(num) = i128::from_str_radix(s, checked_radix(*radix)?) {
                     Ok((
                         Some(Primitive::Optional(Some(Box::new(Primitive::BigInt(num))))),
                         None,
